@@ -6,4 +6,6 @@ cd "$(dirname "$0")/.."
 . scripts/env.sh
 mkdir -p bin evidence replays
 go build -tags verif -o bin/check ./cmd/check
+go1.26 test -tags verif -c -o bin/watchmc.test ./watchmc
+go1.26 test -tags verif -race -c -o bin/watchmc.race.test ./watchmc || echo "race build unavailable (C20 runs without the race pass)"
 echo "setup ok"
